@@ -81,7 +81,8 @@ Fixpoint pushonly (p : list op) : Prop :=
   match p with
   | [] => True
   | OPush _ _ :: r => pushonly r
-  | _ => False
+  | ORecyc _ :: r => pushonly r
+  | OPop :: _ => False
   end.
 
 Fixpoint poponly (p : list op) : Prop :=
@@ -100,7 +101,7 @@ Record wf (pt : nat) (progs : list (list op)) : Prop := {
 }.
 
 Lemma poponly_pushed p : poponly p -> pushed p = [].
-Proof. induction p as [|[n v|] r IH]; cbn; auto; contradiction. Qed.
+Proof. induction p as [|[n v| |v] r IH]; cbn; auto; contradiction. Qed.
 
 (* ------------------------------------------------------------------ *)
 (* node ownership: the nodes a thread may touch privately *)
@@ -112,7 +113,7 @@ Definition pcl (T : tst) : list nat :=
 Definition own_list (T : tst) : list nat := pcl T ++ pushed (prog T).
 
 Definition producer_pc (p : pcT) : Prop :=
-  match p with PData | PNull | PLoadTail | PStoreTail | PLink | Fin => True | _ => False end.
+  match p with PTake | PData | PNull | PLoadTail | PStoreTail | PLink | Fin => True | _ => False end.
 Definition consumer_pc (p : pcT) : Prop :=
   match p with QHead | QNext | QSetHead | QRead | QWrite | QUse | Fin => True | _ => False end.
 
@@ -158,6 +159,9 @@ Record GInv (pt : nat) (x : ist) : Prop := {
   g_own_dj : forall t u n, In n (own_list (thr (base x) t)) -> In n (own_list (thr (base x) u)) -> t = u;
   g_own_nq : forall t n, In n (own_list (thr (base x) t)) ->
                          n <> 0 /\ forall i, lo x <= i <= hi x -> nodeat x i <> n;
+  g_fr_nd : NoDup (freed (base x));
+  g_fr_nq : forall n, In n (freed (base x)) -> n <> 0 /\ forall i, lo x <= i <= hi x -> nodeat x i <> n;
+  g_fr_dj : forall t n, In n (own_list (thr (base x) t)) -> ~ In n (freed (base x));
   g_plog : map snd (plog x) = map (valat x) (seq 1 (hi x));
   g_qlog : qlog x = map (valat x) (seq 1 (nret x))
 }.
@@ -170,40 +174,40 @@ Ltac thr_cases u t :=
 Lemma own_next_op' T : own_list (next_op T) = pushed (prog T).
 Proof.
   unfold own_list, next_op, pcl.
-  destruct (prog T) as [|[n v|] r]; cbn [pc prog pushing popping pushed node hd app]; reflexivity.
+  destruct (prog T) as [|[n v| |v] r]; cbn [pc prog pushing popping pushed node hd app]; reflexivity.
 Qed.
 
 Lemma own_next_op T : pcl T = [] -> own_list (next_op T) = own_list T.
 Proof. intros E. rewrite own_next_op'. unfold own_list. rewrite E. reflexivity. Qed.
 
 Lemma next_op_pc T :
-  pc (next_op T) = PData \/ pc (next_op T) = QHead \/ pc (next_op T) = Fin.
+  pc (next_op T) = PData \/ pc (next_op T) = QHead \/ pc (next_op T) = Fin \/ pc (next_op T) = PTake.
 Proof.
-  unfold next_op. destruct (prog T) as [|[n v|] r]; cbn; auto.
+  unfold next_op. destruct (prog T) as [|[n v| |v] r]; cbn; auto.
 Qed.
 
 Lemma next_op_ok x T : local_ok x (next_op T).
 Proof.
-  unfold local_ok. destruct (next_op_pc T) as [E|[E|E]]; rewrite E; exact I.
+  unfold local_ok. destruct (next_op_pc T) as [E|[E|[E|E]]]; rewrite E; exact I.
 Qed.
 
 Lemma next_op_cons T :
   pushonly (prog T) -> producer_pc (pc (next_op T)) /\ pushonly (prog (next_op T)).
 Proof.
-  unfold next_op. destruct (prog T) as [|[n v|] r]; cbn; tauto.
+  unfold next_op. destruct (prog T) as [|[n v| |v] r]; cbn; tauto.
 Qed.
 
 Lemma next_op_prod T :
   poponly (prog T) -> consumer_pc (pc (next_op T)) /\ poponly (prog (next_op T)).
 Proof.
-  unfold next_op. destruct (prog T) as [|[n v|] r]; cbn; tauto.
+  unfold next_op. destruct (prog T) as [|[n v| |v] r]; cbn; tauto.
 Qed.
 
 Lemma next_op_not_plink T : pc (next_op T) <> PLink.
-Proof. destruct (next_op_pc T) as [E|[E|E]]; rewrite E; discriminate. Qed.
+Proof. destruct (next_op_pc T) as [E|[E|[E|E]]]; rewrite E; discriminate. Qed.
 
 Lemma next_op_popping T : popping (pc (next_op T)) = false.
-Proof. destruct (next_op_pc T) as [E|[E|E]]; rewrite E; reflexivity. Qed.
+Proof. destruct (next_op_pc T) as [E|[E|[E|E]]]; rewrite E; reflexivity. Qed.
 
 Lemma linkingN_upd s s' t T' n :
   thr s' = upd (thr s) t T' ->
@@ -253,22 +257,25 @@ Proof.
     destruct (Nat.eq_dec t pt) as [->|Nt]; [|rewrite (poponly_pushed _ (Wp t Nt)) in H1; destruct H1].
     destruct (Nat.eq_dec u pt) as [->|Nu]; [reflexivity|rewrite (poponly_pushed _ (Wp u Nu)) in H2; destruct H2].
   - intros t n. rewrite Own. intros H. destruct (Wz t n H). split; auto.
+  - cbn. constructor.
 Qed.
 
 (* ------------------------------------------------------------------ *)
 (* Steps that change only thread t's private state and memory cells of
    nodes that t owns; the ghost sequence is unchanged. *)
-Lemma frame_step pt x t T' nxt' dat' nret' qlog' :
+Lemma frame_stepF pt x t T' nxt' dat' fr' nret' qlog' :
   GInv pt x ->
   let s := base x in
-  let s' := {| head := head s; tail := tail s; nxt := nxt'; dat := dat';
+  let s' := {| head := head s; tail := tail s; nxt := nxt'; dat := dat'; freed := fr';
                thr := upd (thr s) t T'; nthr := nthr s |} in
   let x' := {| base := s'; nodeat := nodeat x; valat := valat x; hi := hi x; lo := lo x; nret := nret';
                plog := plog x; qlog := qlog' |} in
   (forall m, nxt' m <> nxt s m -> In m (own_list (thr s t))) ->
   (forall m, dat' m <> dat s m -> In m (own_list (thr s t))) ->
   pc (thr s t) <> PLink -> pc T' <> PLink ->
-  NoDup (own_list T') -> incl (own_list T') (own_list (thr s t)) ->
+  NoDup (own_list T') -> NoDup fr' ->
+  (forall n, In n (own_list T') \/ In n fr' -> In n (own_list (thr s t)) \/ In n (freed s)) ->
+  (forall n, In n (own_list T') -> ~ In n fr') ->
   (t <> 0 -> producer_pc (pc T') /\ pushonly (prog T')) ->
   (t <> pt -> consumer_pc (pc T') /\ poponly (prog T')) ->
   (if popping (pc (upd (thr s) t T' 0)) then nret' + 1 = lo x else nret' = lo x) ->
@@ -276,9 +283,9 @@ Lemma frame_step pt x t T' nxt' dat' nret' qlog' :
   local_ok x' T' ->
   GInv pt x'.
 Proof.
-  intros G s s' x' Hn Hd A B Nd Inc Cons Prod Ret Ql Loc.
-  destruct G as [Go Gh Gt Gi Gz G0 Gl Gla Gd Gloc Gu Gc Gpr Gr Ond Odj Onq Gp Gq].
-  fold s in Gh, Gt, G0, Gl, Gla, Gd, Gloc, Gu, Gc, Gpr, Gr, Ond, Odj, Onq.
+  intros G s s' x' Hn Hd A B Nd NdF Pool Dj Cons Prod Ret Ql Loc.
+  destruct G as [Go Gh Gt Gi Gz G0 Gl Gla Gd Gloc Gu Gc Gpr Gr Ond Odj Onq Fnd Fnq Fdj Gp Gq].
+  fold s in Gh, Gt, G0, Gl, Gla, Gd, Gloc, Gu, Gc, Gpr, Gr, Ond, Odj, Onq, Fnd, Fnq, Fdj.
   assert (Ethr : thr s' = upd (thr s) t T') by reflexivity.
   assert (NW : forall m, (forall i, lo x <= i <= hi x -> nodeat x i <> m) -> m <> 0 -> False -> True) by auto.
   assert (NxW : forall i, lo x <= i <= hi x -> nxt' (nodeat x i) = nxt s (nodeat x i)).
@@ -295,7 +302,7 @@ Proof.
     exfalso. apply Hu. apply (Odj u t m Hm). exact (Hd _ Ne). }
   assert (Lk : forall n, linkingN s' n <-> linkingN s n).
   { intros n. apply (linkingN_local s s' t T' n Ethr A B). }
-  constructor; cbn [base nodeat valat hi lo nret plog qlog x']; cbn [head tail nxt dat thr s']; auto.
+  constructor; cbn [base nodeat valat hi lo nret plog qlog x']; cbn [head tail nxt dat freed thr s']; auto.
   - (* nxt 0 *)
     destruct (Nat.eq_dec (nxt' 0) (nxt s 0)) as [E|Ne]; [congruence|].
     exfalso. destruct (Onq t _ (Hn _ Ne)) as [Q _]. congruence.
@@ -307,7 +314,7 @@ Proof.
     intros u. destruct (Nat.eq_dec u t) as [->|Hne].
     + rewrite upd_same. exact Loc.
     + rewrite upd_other by assumption. assert (Lu := Gloc u). unfold local_ok in *.
-      destruct (pc (thr s u)) eqn:Hu; cbn [base nodeat valat hi lo nret x']; cbn [nxt dat s']; auto.
+      destruct (pc (thr s u)) eqn:Hu; cbn [base nodeat valat hi lo nret x']; cbn [nxt dat freed s']; auto.
       * rewrite (DtO u) by (auto; unfold own_list, pcl; rewrite Hu; cbn; left; reflexivity). exact Lu.
       * rewrite (DtO u), (NxO u) by (auto; unfold own_list, pcl; rewrite Hu; cbn; left; reflexivity). exact Lu.
       * rewrite (DtO u), (NxO u) by (auto; unfold own_list, pcl; rewrite Hu; cbn; left; reflexivity). exact Lu.
@@ -323,12 +330,42 @@ Proof.
   - (* own nodup *)
     intros u. thr_cases u t; auto.
   - intros u v n. thr_cases u t; thr_cases v t; intros H1 H2; auto.
-    + apply Inc in H1. apply (Odj t v n); auto.
-    + apply Inc in H2. apply (Odj u t n); auto.
+    + destruct (Pool n (or_introl H1)) as [H|H]; [apply (Odj t v n); auto|exfalso; exact (Fdj v n H2 H)].
+    + destruct (Pool n (or_introl H2)) as [H|H]; [apply (Odj u t n); auto|exfalso; exact (Fdj u n H1 H)].
     + apply (Odj u v n); auto.
   - intros u n. thr_cases u t; intros H1.
-    + apply Inc in H1. apply (Onq t n); auto.
+    + destruct (Pool n (or_introl H1)) as [H|H]; [apply (Onq t n); auto|apply Fnq; auto].
     + apply (Onq u n); auto.
+  - intros n H1. destruct (Pool n (or_intror H1)) as [H|H]; [apply (Onq t n); auto|apply Fnq; auto].
+  - intros u n. thr_cases u t; intros H1 H2.
+    + exact (Dj n H1 H2).
+    + destruct (Pool n (or_intror H2)) as [H|H]; [apply n0; apply (Odj u t n); auto|exact (Fdj u n H1 H)].
+Qed.
+
+(* the same with the free stack unchanged *)
+Lemma frame_step pt x t T' nxt' dat' nret' qlog' :
+  GInv pt x ->
+  let s := base x in
+  let s' := {| head := head s; tail := tail s; nxt := nxt'; dat := dat'; freed := freed s;
+               thr := upd (thr s) t T'; nthr := nthr s |} in
+  let x' := {| base := s'; nodeat := nodeat x; valat := valat x; hi := hi x; lo := lo x; nret := nret';
+               plog := plog x; qlog := qlog' |} in
+  (forall m, nxt' m <> nxt s m -> In m (own_list (thr s t))) ->
+  (forall m, dat' m <> dat s m -> In m (own_list (thr s t))) ->
+  pc (thr s t) <> PLink -> pc T' <> PLink ->
+  NoDup (own_list T') -> incl (own_list T') (own_list (thr s t)) ->
+  (t <> 0 -> producer_pc (pc T') /\ pushonly (prog T')) ->
+  (t <> pt -> consumer_pc (pc T') /\ poponly (prog T')) ->
+  (if popping (pc (upd (thr s) t T' 0)) then nret' + 1 = lo x else nret' = lo x) ->
+  qlog' = map (valat x) (seq 1 nret') ->
+  local_ok x' T' ->
+  GInv pt x'.
+Proof.
+  intros G s s' x' Hn Hd A B Nd Inc Cons Prod Ret Ql Loc.
+  apply (frame_stepF pt x t T' nxt' dat' (freed s) nret' qlog' G); auto.
+  - apply (g_fr_nd pt x G).
+  - intros n [H|H]; [left; apply Inc; exact H|right; exact H].
+  - intros n H. apply (g_fr_dj pt x G t). apply Inc. exact H.
 Qed.
 
 Lemma in_own_pushing T : pushing (pc T) = true -> In (node T) (own_list T).
@@ -346,7 +383,7 @@ Qed.
 Lemma pstore_inv pt x t :
   GInv pt x -> pc (thr (base x) t) = PStoreTail ->
   let s := base x in let T := thr s t in
-  let s' := {| head := head s; tail := node T; nxt := nxt s; dat := dat s;
+  let s' := {| head := head s; tail := node T; nxt := nxt s; dat := dat s; freed := freed s;
                thr := upd (thr s) t (with_pc T PLink); nthr := nthr s |} in
   GInv pt {| base := s'; nodeat := upd (nodeat x) (S (hi x)) (node T);
              valat := upd (valat x) (S (hi x)) (arg T);
@@ -354,8 +391,8 @@ Lemma pstore_inv pt x t :
              plog := plog x ++ [(t, arg T)]; qlog := qlog x |}.
 Proof.
   intros G Hpc s T s'.
-  destruct G as [Go Gh Gt Gi Gz G0 Gl Gla Gd Gloc Gu Gc Gpr Gr Ond Odj Onq Gp Gq].
-  fold s in Gh, Gt, G0, Gl, Gla, Gd, Gloc, Gu, Gc, Gpr, Gr, Ond, Odj, Onq.
+  destruct G as [Go Gh Gt Gi Gz G0 Gl Gla Gd Gloc Gu Gc Gpr Gr Ond Odj Onq Fnd Fnq Fdj Gp Gq].
+  fold s in Gh, Gt, G0, Gl, Gla, Gd, Gloc, Gu, Gc, Gpr, Gr, Ond, Odj, Onq, Fnd, Fnq, Fdj.
   fold s T in Hpc.
   set (TL := with_pc T PLink) in *.
   assert (Ethr : thr s' = upd (thr s) t TL) by reflexivity.
@@ -382,7 +419,7 @@ Proof.
       apply Gi in H; lia.
     - intros [u [Hp Hh]]. left. exists u. repeat split; auto. intros ->. fold T in Hp. congruence. }
   assert (Nrl : nret x <= lo x) by (destruct (popping (pc (thr s 0))); lia).
-  constructor; cbn [base nodeat valat hi lo nret plog qlog]; cbn [head tail nxt dat thr s'].
+  constructor; cbn [base nodeat valat hi lo nret plog qlog]; cbn [head tail nxt dat freed thr s'].
   - lia.
   - rewrite NaO by lia. exact Gh.
   - rewrite upd_same. reflexivity.
@@ -408,7 +445,7 @@ Proof.
       exists (hi x). rewrite NaO by lia. rewrite !upd_same. repeat split; auto; try lia.
     + rewrite upd_other by assumption. assert (Lu := Gloc u). unfold local_ok in *.
       assert (Cu : consumer_pc (pc (thr s u))) by (apply Gpr; congruence).
-      destruct (pc (thr s u)) eqn:Hu; cbn [base nodeat valat hi lo nret]; cbn [nxt dat s']; auto;
+      destruct (pc (thr s u)) eqn:Hu; cbn [base nodeat valat hi lo nret]; cbn [nxt dat freed s']; auto;
         try (destruct Cu; fail).
       * rewrite NaO by lia. exact Lu.
       * destruct Lu as (L1 & L2 & L3 & L4). rewrite !NaO by lia. repeat split; auto; try lia.
@@ -440,6 +477,14 @@ Proof.
       * rewrite upd_same in Hin. exact (NotL Hin).
       * apply Hne. apply (Odj u t (node T)); auto.
     + rewrite NaO by lia. apply Q2. lia.
+  - exact Fnd.
+  - intros n Hn. destruct (Fnq n Hn) as [Q1 Q2]. split; auto.
+    intros i Hi. destruct (Nat.eq_dec i (S (hi x))) as [->|Ni].
+    + rewrite upd_same. intros E. subst n. exact (Fdj t _ OwnT Hn).
+    + rewrite NaO by lia. apply Q2; lia.
+  - intros u n. thr_cases u t; intros H1.
+    + apply IncL in H1. apply (Fdj t n H1).
+    + apply (Fdj u n H1).
   - rewrite seq_snoc, !map_app. cbn [map snd]. rewrite map_seq_upd_ge by lia. rewrite <- Gp.
     replace (1 + hi x) with (S (hi x)) by lia. rewrite upd_same. reflexivity.
   - rewrite map_seq_upd_ge by lia. exact Gq.
@@ -450,14 +495,14 @@ Qed.
 Lemma plink_inv pt x t :
   GInv pt x -> pc (thr (base x) t) = PLink ->
   let s := base x in let T := thr s t in
-  let s' := {| head := head s; tail := tail s; nxt := upd (nxt s) (prev T) (node T); dat := dat s;
+  let s' := {| head := head s; tail := tail s; nxt := upd (nxt s) (prev T) (node T); dat := dat s; freed := freed s;
                thr := upd (thr s) t (next_op T); nthr := nthr s |} in
   GInv pt {| base := s'; nodeat := nodeat x; valat := valat x; hi := hi x; lo := lo x; nret := nret x;
              plog := plog x; qlog := qlog x |}.
 Proof.
   intros G Hpc s T s'.
-  destruct G as [Go Gh Gt Gi Gz G0 Gl Gla Gd Gloc Gu Gc Gpr Gr Ond Odj Onq Gp Gq].
-  fold s in Gh, Gt, G0, Gl, Gla, Gd, Gloc, Gu, Gc, Gpr, Gr, Ond, Odj, Onq.
+  destruct G as [Go Gh Gt Gi Gz G0 Gl Gla Gd Gloc Gu Gc Gpr Gr Ond Odj Onq Fnd Fnq Fdj Gp Gq].
+  fold s in Gh, Gt, G0, Gl, Gla, Gd, Gloc, Gu, Gc, Gpr, Gr, Ond, Odj, Onq, Fnd, Fnq, Fdj.
   fold s T in Hpc.
   assert (Ethr : thr s' = upd (thr s) t (next_op T)) by reflexivity.
   assert (LT := Gloc t). fold T in LT. unfold local_ok in LT. rewrite Hpc in LT.
@@ -473,7 +518,7 @@ Proof.
   { intros i Hi Hk. apply upd_other. rewrite Lk2. intros E. apply Gi in E; lia. }
   assert (NxO : forall u m, In m (own_list (thr s u)) -> upd (nxt s) (prev T) (node T) m = nxt s m).
   { intros u m Hm. apply upd_other. rewrite Lk2. intros E. destruct (Onq u m Hm) as [_ Q]. apply (Q k); [lia|auto]. }
-  constructor; cbn [base nodeat valat hi lo nret plog qlog]; cbn [head tail nxt dat thr s']; auto.
+  constructor; cbn [base nodeat valat hi lo nret plog qlog]; cbn [head tail nxt dat freed thr s']; auto.
   - rewrite upd_other; auto. rewrite Lk2. apply not_eq_sym. apply Gz. lia.
   - intros i Hi. destruct (Nat.eq_dec i k) as [->|Ni].
     + right. split.
@@ -486,7 +531,7 @@ Proof.
   - intros u. destruct (Nat.eq_dec u t) as [->|Hne].
     + rewrite upd_same. apply next_op_ok.
     + rewrite upd_other by assumption. assert (Lu := Gloc u). unfold local_ok in *.
-      destruct (pc (thr s u)) eqn:Hu; cbn [base nodeat valat hi lo nret]; cbn [nxt dat s']; auto.
+      destruct (pc (thr s u)) eqn:Hu; cbn [base nodeat valat hi lo nret]; cbn [nxt dat freed s']; auto.
       * rewrite (NxO u) by (apply in_own_pushing; rewrite Hu; reflexivity). exact Lu.
       * rewrite (NxO u) by (apply in_own_pushing; rewrite Hu; reflexivity). exact Lu.
       * destruct Lu as (L1 & L2 & L3 & L4). repeat split; auto. rewrite Lk. tauto.
@@ -502,6 +547,7 @@ Proof.
   - intros u. thr_cases u t; auto. rewrite OL. apply Ond.
   - intros u v n. thr_cases u t; thr_cases v t; rewrite ?OL; apply Odj.
   - intros u n. thr_cases u t; rewrite ?OL; apply Onq.
+  - intros u n. thr_cases u t; rewrite ?OL; apply Fdj.
 Qed.
 
 (* ------------------------------------------------------------------ *)
@@ -510,14 +556,14 @@ Qed.
 Lemma qsethead_inv pt x t :
   GInv pt x -> pc (thr (base x) t) = QSetHead ->
   let s := base x in let T := thr s t in
-  let s' := {| head := hn T; tail := tail s; nxt := nxt s; dat := dat s;
+  let s' := {| head := hn T; tail := tail s; nxt := nxt s; dat := dat s; freed := freed s;
                thr := upd (thr s) t (with_pc T QRead); nthr := nthr s |} in
   GInv pt {| base := s'; nodeat := nodeat x; valat := valat x; hi := hi x; lo := S (lo x); nret := nret x;
              plog := plog x; qlog := qlog x |}.
 Proof.
   intros G Hpc s T s'.
-  destruct G as [Go Gh Gt Gi Gz G0 Gl Gla Gd Gloc Gu Gc Gpr Gr Ond Odj Onq Gp Gq].
-  fold s in Gh, Gt, G0, Gl, Gla, Gd, Gloc, Gu, Gc, Gpr, Gr, Ond, Odj, Onq.
+  destruct G as [Go Gh Gt Gi Gz G0 Gl Gla Gd Gloc Gu Gc Gpr Gr Ond Odj Onq Fnd Fnq Fdj Gp Gq].
+  fold s in Gh, Gt, G0, Gl, Gla, Gd, Gloc, Gu, Gc, Gpr, Gr, Ond, Odj, Onq, Fnd, Fnq, Fdj.
   fold s T in Hpc.
   assert (T0 : t = 0).
   { destruct (Nat.eq_dec t 0) as [|Ne]; auto. destruct (Gc t Ne) as [P _]. fold T in P. rewrite Hpc in P. destruct P. }
@@ -533,7 +579,7 @@ Proof.
   { intros n Hn E. destruct (Onq t n Hn) as [_ Q]. apply (Q (lo x)); [lia|congruence]. }
   assert (InR : forall n, In n (own_list (with_pc T QRead)) -> n = hd T \/ In n (own_list T)).
   { intros n. rewrite OLR, OLT. intros [H|H]; auto. }
-  constructor; cbn [base nodeat valat hi lo nret plog qlog]; cbn [head tail nxt dat thr s']; auto.
+  constructor; cbn [base nodeat valat hi lo nret plog qlog]; cbn [head tail nxt dat freed thr s']; auto.
   - intros i j Hi Hj. apply Gi; lia.
   - intros i Hi. apply Gz; lia.
   - intros i Hi. rewrite Lk. apply Gl. lia.
@@ -543,7 +589,7 @@ Proof.
       rewrite L2. apply Gd. lia.
     + rewrite upd_other by assumption. assert (Lu := Gloc u). unfold local_ok in *.
       destruct (Gc u ltac:(lia)) as [Pu _].
-      destruct (pc (thr s u)) eqn:Hu; cbn [base nodeat valat hi lo nret]; cbn [nxt dat s']; auto; try (destruct Pu; fail).
+      destruct (pc (thr s u)) eqn:Hu; cbn [base nodeat valat hi lo nret]; cbn [nxt dat freed s']; auto; try (destruct Pu; fail).
       destruct Lu as [i (A & B & C & D)]. exists i. repeat split; auto; try lia.
       destruct (Nat.eq_dec i (lo x)) as [->|]; [|lia]. exfalso. apply L4. exists u. auto.
   - intros u v. thr_cases u t; thr_cases v t; intros; try discriminate; auto.
@@ -564,6 +610,11 @@ Proof.
       * split; [rewrite L1; apply Gz; lia|]. intros i Hi E. rewrite L1 in E. apply Gi in E; lia.
       * destruct (Onq t n H1') as [Q1 Q2]. split; auto. intros i Hi. apply Q2. lia.
     + destruct (Onq u n H1) as [Q1 Q2]. split; auto. intros i Hi. apply Q2. lia.
+  - intros n Hn. destruct (Fnq n Hn) as [Q1 Q2]. split; auto. intros i Hi. apply Q2. lia.
+  - intros u n. thr_cases u t; intros H1.
+    + destruct (InR n H1) as [->|H1']; [|apply (Fdj t n H1')].
+      intros Hf. destruct (Fnq _ Hf) as [_ Q]. apply (Q (lo x)); [lia|congruence].
+    + apply (Fdj u n H1).
 Qed.
 
 Lemma ret_keep (thrs : nat -> tst) t T' (nr l : nat) :
@@ -586,7 +637,42 @@ Proof.
   assert (RK : forall T', popping (pc T') = popping (pc T) ->
                if popping (pc (upd (thr (base x)) t T' 0)) then nret x + 1 = lo x else nret x = lo x).
   { intros T' E. apply ret_keep; [rewrite <- HT; exact E|apply (g_ret pt x G)]. }
+  assert (OTn : pushing (pc T) = false -> popping (pc T) = false -> own_list T = pushed (prog T)).
+  { intros E1 E2. unfold own_list, pcl. rewrite E1, E2. reflexivity. }
   destruct (pc T) eqn:Hpc; cbn [fst].
+  - (* PTake *)
+    destruct (freed (base x)) as [|n fr] eqn:Hfr; cbn [fst].
+    + apply (frame_step pt x t (next_op T) (nxt (base x)) (dat (base x)) (nret x) (qlog x) G); rewrite <- ?HT.
+      * nochange.
+      * nochange.
+      * rewrite Hpc; discriminate.
+      * apply next_op_not_plink.
+      * rewrite own_next_op; auto. unfold pcl. rewrite Hpc. reflexivity.
+      * rewrite own_next_op; [apply incl_refl|]. unfold pcl. rewrite Hpc. reflexivity.
+      * intros Ht. apply next_op_cons. apply (CT Ht).
+      * intros Ht. destruct (PT Ht) as [[] _].
+      * apply RK. apply next_op_popping.
+      * apply (g_qlog pt x G).
+      * apply next_op_ok.
+    + assert (Fnd := g_fr_nd pt x G). assert (Fdj := g_fr_dj pt x G t). rewrite Hfr in Fnd, Fdj. rewrite <- HT in Fdj.
+      rewrite (OTn eq_refl eq_refl) in OT, Fdj.
+      match goal with |- GInv _ {| base := {| thr := upd _ _ ?X |} |} =>
+        apply (frame_stepF pt x t X (nxt (base x)) (dat (base x)) fr (nret x) (qlog x) G); rewrite <- ?HT end.
+      * nochange.
+      * nochange.
+      * rewrite Hpc; discriminate.
+      * cbn; discriminate.
+      * change (NoDup (n :: pushed (prog T))). constructor; auto. intros H. apply (Fdj n H). left; reflexivity.
+      * inversion Fnd; auto.
+      * rewrite Hfr, (OTn eq_refl eq_refl). change (forall m, In m (n :: pushed (prog T)) \/ In m fr -> In m (pushed (prog T)) \/ In m (n :: fr)).
+        intros m [[->|H]|H]; [right; left; reflexivity|left; exact H|right; right; exact H].
+      * change (forall m, In m (n :: pushed (prog T)) -> ~ In m fr).
+        intros m [<-|H] Hf; [inversion Fnd; auto|apply (Fdj m H); right; exact Hf].
+      * intros Ht. destruct (CT Ht). split; [exact I|assumption].
+      * intros Ht. destruct (PT Ht) as [[] _].
+      * apply RK. reflexivity.
+      * apply (g_qlog pt x G).
+      * exact I.
   - (* PData *)
     apply (frame_step pt x t (with_pc T PNull) (nxt (base x)) (upd (dat (base x)) (node T) (arg T)) (nret x) (qlog x) G);
       rewrite <- ?HT.
@@ -595,7 +681,7 @@ Proof.
       apply in_own_pushing. rewrite Hpc. reflexivity.
     + rewrite Hpc; discriminate.
     + cbn; discriminate.
-    + replace (own_list (with_pc T PNull)) with (own_list T); auto. own_same Hpc. reflexivity.
+    + replace (own_list (with_pc T PNull)) with (own_list T); [exact OT|own_same Hpc; reflexivity].
     + replace (own_list (with_pc T PNull)) with (own_list T); [apply incl_refl|]. own_same Hpc. reflexivity.
     + intros Ht. destruct (CT Ht). split; [exact I|assumption].
     + intros Ht. destruct (PT Ht) as [[] _].
@@ -610,7 +696,7 @@ Proof.
     + nochange.
     + rewrite Hpc; discriminate.
     + cbn; discriminate.
-    + replace (own_list (with_pc T PLoadTail)) with (own_list T); auto. own_same Hpc. reflexivity.
+    + replace (own_list (with_pc T PLoadTail)) with (own_list T); [exact OT|own_same Hpc; reflexivity].
     + replace (own_list (with_pc T PLoadTail)) with (own_list T); [apply incl_refl|]. own_same Hpc. reflexivity.
     + intros Ht. destruct (CT Ht). split; [exact I|assumption].
     + intros Ht. destruct (PT Ht) as [[] _].
@@ -624,7 +710,7 @@ Proof.
     + nochange.
     + rewrite Hpc; discriminate.
     + cbn; discriminate.
-    + match goal with |- NoDup ?l => replace l with (own_list T); auto end. own_same Hpc. reflexivity.
+    + match goal with |- NoDup ?l => replace l with (own_list T); [exact OT|own_same Hpc; reflexivity] end.
     + match goal with |- incl ?l _ => replace l with (own_list T); [apply incl_refl|] end. own_same Hpc. reflexivity.
     + intros Ht. destruct (CT Ht). split; [exact I|assumption].
     + intros Ht. destruct (PT Ht) as [[] _].
@@ -642,7 +728,7 @@ Proof.
     + nochange.
     + rewrite Hpc; discriminate.
     + cbn; discriminate.
-    + match goal with |- NoDup ?l => replace l with (own_list T); auto end. own_same Hpc. reflexivity.
+    + match goal with |- NoDup ?l => replace l with (own_list T); [exact OT|own_same Hpc; reflexivity] end.
     + match goal with |- incl ?l _ => replace l with (own_list T); [apply incl_refl|] end. own_same Hpc. reflexivity.
     + intros Ht. destruct (CT Ht) as [[] _].
     + intros Ht. destruct (PT Ht). split; [exact I|assumption].
@@ -669,7 +755,7 @@ Proof.
       * nochange.
       * rewrite Hpc; discriminate.
       * cbn; discriminate.
-      * match goal with |- NoDup ?l => replace l with (own_list T); auto end. own_same Hpc. reflexivity.
+      * match goal with |- NoDup ?l => replace l with (own_list T); [exact OT|own_same Hpc; reflexivity] end.
       * match goal with |- incl ?l _ => replace l with (own_list T); [apply incl_refl|] end. own_same Hpc. reflexivity.
       * intros Ht. destruct (CT Ht) as [[] _].
       * intros Ht. destruct (PT Ht). split; [exact I|assumption].
@@ -696,7 +782,7 @@ Proof.
     + nochange.
     + rewrite Hpc; discriminate.
     + cbn; discriminate.
-    + match goal with |- NoDup ?l => replace l with (own_list T); auto end. own_same Hpc. reflexivity.
+    + match goal with |- NoDup ?l => replace l with (own_list T); [exact OT|own_same Hpc; reflexivity] end.
     + match goal with |- incl ?l _ => replace l with (own_list T); [apply incl_refl|] end. own_same Hpc. reflexivity.
     + intros Ht. destruct (CT Ht) as [[] _].
     + intros Ht. destruct (PT Ht). split; [exact I|assumption].
@@ -711,7 +797,7 @@ Proof.
       apply in_own_popping. rewrite Hpc. reflexivity.
     + rewrite Hpc; discriminate.
     + cbn; discriminate.
-    + replace (own_list (with_pc T QUse)) with (own_list T); auto. own_same Hpc. reflexivity.
+    + replace (own_list (with_pc T QUse)) with (own_list T); [exact OT|own_same Hpc; reflexivity].
     + replace (own_list (with_pc T QUse)) with (own_list T); [apply incl_refl|]. own_same Hpc. reflexivity.
     + intros Ht. destruct (CT Ht) as [[] _].
     + intros Ht. destruct (PT Ht). split; [exact I|assumption].
@@ -724,14 +810,19 @@ Proof.
     assert (OTT : own_list T = hd T :: pushed (prog T)).
     { unfold own_list, pcl. rewrite Hpc. reflexivity. }
     assert (Rt := g_ret pt x G). rewrite <- T0, <- HT, Hpc in Rt. cbn in Rt.
-    apply (frame_step pt x t (next_op T) (nxt (base x)) (dat (base x)) (S (nret x))
-                      (qlog x ++ [dat (base x) (hd T)]) G); rewrite <- ?HT.
+    assert (Fnd := g_fr_nd pt x G). assert (Fdj := g_fr_dj pt x G t). rewrite <- HT, OTT in Fdj. rewrite OTT in OT.
+    apply (frame_stepF pt x t (next_op T) (nxt (base x)) (dat (base x)) (hd T :: freed (base x)) (S (nret x))
+                       (qlog x ++ [dat (base x) (hd T)]) G); rewrite <- ?HT.
     + nochange.
     + nochange.
     + rewrite Hpc; discriminate.
     + apply next_op_not_plink.
-    + rewrite own_next_op'. rewrite OTT in OT. inversion OT; auto.
-    + rewrite own_next_op', OTT. intros n Hn. right. exact Hn.
+    + rewrite own_next_op'. inversion OT; auto.
+    + constructor; auto. apply Fdj. left; reflexivity.
+    + rewrite own_next_op', OTT. intros n [H|[H|H]]; [left; right; exact H|left; left; exact H|right; exact H].
+    + rewrite own_next_op'. intros n H [Hf|Hf].
+      * subst n. inversion OT; auto.
+      * apply (Fdj n); [right; exact H|exact Hf].
     + intros Ht. contradiction.
     + intros Ht. apply next_op_prod. apply (PT Ht).
     + subst t. rewrite upd_same. rewrite next_op_popping. lia.
@@ -862,31 +953,74 @@ Qed.
 
 (* ------------------------------------------------------------------ *)
 (* program order: the values stored to tail so far, followed by the values the
-   producer has still to push, are the producer's program *)
+   producer has still to push, form a subsequence of the values of the
+   producer's program, in program order (a recycled push that finds no free
+   node pushes nothing, hence subsequence and not equality) *)
+Inductive subseq : list nat -> list nat -> Prop :=
+| sub_nil l : subseq [] l
+| sub_skip a l1 l2 : subseq l1 l2 -> subseq l1 (a :: l2)
+| sub_take a l1 l2 : subseq l1 l2 -> subseq (a :: l1) (a :: l2).
+
+Lemma subseq_refl l : subseq l l.
+Proof. induction l; [apply sub_nil|apply sub_take; auto]. Qed.
+
+Lemma subseq_eq l1 l2 : l1 = l2 -> subseq l1 l2.
+Proof. intros ->. apply subseq_refl. Qed.
+
+Lemma subseq_trans l1 l2 l3 : subseq l1 l2 -> subseq l2 l3 -> subseq l1 l3.
+Proof.
+  intros H12 H23. revert l1 H12. induction H23 as [l3|a l2 l3 H IH|a l2 l3 H IH]; intros l1 H12.
+  - inversion H12. apply sub_nil.
+  - apply sub_skip. apply IH. exact H12.
+  - inversion H12 as [|b k1 k2 H'|b k1 k2 H']; subst.
+    + apply sub_nil.
+    + apply sub_skip. apply IH. exact H'.
+    + apply sub_take. apply IH. exact H'.
+Qed.
+
+Lemma subseq_app_mid A v B : subseq (A ++ B) (A ++ v :: B).
+Proof. induction A as [|a A IH]; cbn; [apply sub_skip; apply subseq_refl|apply sub_take; exact IH]. Qed.
+
+Lemma subseq_prefix A B L : subseq (A ++ B) L -> subseq A L.
+Proof.
+  revert L. induction A as [|a A IH]; intros L H; [apply sub_nil|].
+  cbn in H. induction L as [|b L IHL]; [inversion H|].
+  inversion H as [|c k1 k2 H'|c k1 k2 H']; subst.
+  - apply sub_skip. apply IHL. exact H'.
+  - apply sub_take. apply IH. exact H'.
+Qed.
+
 Fixpoint pushvals (p : list op) : list nat :=
   match p with
   | [] => []
   | OPush _ v :: r => v :: pushvals r
-  | _ :: r => pushvals r
+  | ORecyc v :: r => v :: pushvals r
+  | OPop :: r => pushvals r
   end.
 
+(* a push call that has not stored to tail yet *)
+Definition pendingb (p : pcT) : bool := match p with PTake => true | _ => pushing p end.
+
 Definition pendvals (T : tst) : list nat :=
-  (if pushing (pc T) then [arg T] else []) ++ pushvals (prog T).
+  (if pendingb (pc T) then [arg T] else []) ++ pushvals (prog T).
+
+Definition Xv (pt : nat) (x : ist) : list nat := map snd (plog x) ++ pendvals (thr (base x) pt).
 
 Definition PInv (pt : nat) (progs : list (list op)) (x : ist) : Prop :=
-  map snd (plog x) ++ pendvals (thr (base x) pt) = pushvals (nth pt progs []).
+  subseq (Xv pt x) (pushvals (nth pt progs [])).
 
-Lemma pend_next_op T : pushing (pc T) = false -> pendvals (next_op T) = pendvals T.
+Lemma pend_next_op T : pendvals (next_op T) = pushvals (prog T).
 Proof.
-  unfold pendvals, next_op. intros E. rewrite E.
-  destruct (prog T) as [|[n v|] r]; cbn in *; reflexivity.
+  unfold pendvals, next_op.
+  destruct (prog T) as [|[n v| |v] r]; cbn in *; reflexivity.
 Qed.
 
 Lemma step_thr_other s u t : t <> u -> thr (fst (step s u)) t = thr s t.
 Proof.
   intros Ne. unfold step. destruct (pc (thr s u)); cbn [fst thr set_thr]; try reflexivity;
     try (apply upd_other; exact Ne).
-  destruct (nxt s (hd (thr s u))); cbn [fst thr set_thr]; apply upd_other; exact Ne.
+  - destruct (freed s); cbn [fst thr set_thr]; apply upd_other; exact Ne.
+  - destruct (nxt s (hd (thr s u))); cbn [fst thr set_thr]; apply upd_other; exact Ne.
 Qed.
 
 Lemma lstep_plog x u :
@@ -896,37 +1030,44 @@ Lemma lstep_plog x u :
                      end.
 Proof. unfold lstep. destruct (pc (thr (base x) u)); reflexivity. Qed.
 
-Lemma pinv_step pt progs x u : GInv pt x -> PInv pt progs x -> PInv pt progs (lstep x u).
+Lemma xv_step pt x u : GInv pt x -> subseq (Xv pt (lstep x u)) (Xv pt x).
 Proof.
-  intros G P. unfold PInv in *. rewrite lstep_erase, lstep_plog.
+  intros G. unfold Xv. rewrite lstep_erase, lstep_plog.
   destruct (Nat.eq_dec pt u) as [<-|Ne].
   - unfold step. remember (thr (base x) pt) as T eqn:HT.
-    destruct (pc T) eqn:Hpc; cbn [fst thr set_thr]; rewrite ?upd_same; try (rewrite <- HT; exact P);
-      try (rewrite <- P; unfold pendvals; cbn; rewrite Hpc; reflexivity);
-      try (rewrite pend_next_op by (rewrite Hpc; reflexivity); exact P).
-    + rewrite <- P. rewrite map_app. unfold pendvals. cbn. rewrite Hpc. cbn.
+    destruct (pc T) eqn:Hpc; cbn [fst thr set_thr]; rewrite ?upd_same; try (rewrite <- HT; apply subseq_refl);
+      try (apply subseq_eq; unfold pendvals; cbn; rewrite ?Hpc; reflexivity);
+      try (apply subseq_eq; rewrite pend_next_op; unfold pendvals; rewrite Hpc; reflexivity).
+    + destruct (freed (base x)); cbn [fst thr set_thr]; rewrite upd_same.
+      * rewrite pend_next_op. unfold pendvals. rewrite Hpc. cbn [pendingb app]. apply subseq_app_mid.
+      * apply subseq_eq. unfold pendvals. cbn. rewrite Hpc. reflexivity.
+    + apply subseq_eq. rewrite map_app. unfold pendvals. cbn. rewrite Hpc. cbn.
       rewrite <- app_assoc. reflexivity.
-    + destruct (nxt (base x) (hd T)); cbn [fst thr set_thr]; rewrite upd_same.
-      * rewrite pend_next_op by (rewrite Hpc; reflexivity). exact P.
-      * rewrite <- P. unfold pendvals. cbn. rewrite Hpc. reflexivity.
+    + destruct (nxt (base x) (hd T)); cbn [fst thr set_thr]; rewrite upd_same; apply subseq_eq.
+      * rewrite pend_next_op. unfold pendvals. rewrite Hpc. reflexivity.
+      * unfold pendvals. cbn. rewrite Hpc. reflexivity.
   - rewrite step_thr_other by assumption.
     destruct (g_prod pt x G u ltac:(congruence)) as [C _].
-    destruct (pc (thr (base x) u)); auto. destruct C.
+    destruct (pc (thr (base x) u)); try apply subseq_refl. destruct C.
 Qed.
+
+Lemma pinv_step pt progs x u : GInv pt x -> PInv pt progs x -> PInv pt progs (lstep x u).
+Proof. intros G P. unfold PInv in *. eapply subseq_trans; [apply xv_step; exact G|exact P]. Qed.
 
 Theorem ireach_pinv pt progs x : wf pt progs -> ireach progs x -> PInv pt progs x.
 Proof.
   intros W. induction 1 as [|x t R IH].
-  - unfold PInv. cbn. unfold idle_thread. rewrite pend_next_op; reflexivity.
+  - unfold PInv, Xv. cbn. unfold idle_thread. rewrite pend_next_op. apply subseq_refl.
   - apply pinv_step; auto. apply (ireach_inv pt progs); auto.
 Qed.
 
-(* the values returned so far are a prefix of the producer's program *)
-Lemma program_prefix_of_inv pt progs x : GInv pt x -> PInv pt progs x ->
-  exists rest, pushvals (nth pt progs []) = qlog x ++ rest.
+(* the values returned so far are (a prefix of) a subsequence of the producer's
+   program, in program order *)
+Lemma program_order_of_inv pt progs x : GInv pt x -> PInv pt progs x ->
+  subseq (qlog x) (pushvals (nth pt progs [])).
 Proof.
-  intros G P. destruct (prefix_of_inv pt x G) as [r E]. unfold PInv in P. rewrite E in P.
-  rewrite <- app_assoc in P. eexists. symmetry. exact P.
+  intros G P. destruct (prefix_of_inv pt x G) as [r E]. unfold PInv, Xv in P. rewrite E in P.
+  rewrite <- app_assoc in P. apply subseq_prefix in P. exact P.
 Qed.
 
 (* ------------------------------------------------------------------ *)
